@@ -94,3 +94,13 @@ def cases(tier, seed, ctx=None):
         yield ("tls", [1, h + b"\r\n\r\n" + tail, len(h) + 4, -1], "%srefused-then-second-record" % 'over-tls-')
         big = (b"GET /again HTTP/1.1\r\nHost: h\r\n\r\n" + b"junk " * 40) * rng.choice([30, 90])
         yield ("tls", [1, h + b"\r\n\r\n" + big, rng.choice([0, len(h) + 4, 3]), rng.choice([-1, 15])], "%srefused-then-several-KiB" % 'over-tls-')
+    # a client that drives the TLS library itself (family tlsraw): the request in records of its own choosing; then it just waits,
+    # or announces the end of its data (close_notify) with the TCP connection left open, or half-closes the connection, with and
+    # without the alert - while the handler answers at once or some time later.  TLS and plain TCP must behave alike.
+    RQ = [b"GET /x HTTP/1.1\r\nHost: h\r\n\r\n", b"POST /up HTTP/1.1\r\nContent-Length: 5\r\n\r\nhello"]
+    for j in range(24 if quick else 240):
+        rq = RQ[j % 2]
+        ending = j % 4
+        delay = rng.choice([0, 0, 15, 40])
+        pieces = rng.choice([[], [5], [len(rq) - 2, 1], [1, 1, 1], [len(rq) - 5]])
+        yield ("tlsraw", [rq, ending, delay, pieces, 1], "raw-client-ending-%d" % ending)
